@@ -452,6 +452,19 @@ impl Report {
         for (k, v) in inner.notes {
             cov.insert(k, v);
         }
+        // the thorough tier also runs the quick enumeration under other build configurations of the crate (./run): their
+        // own evidence files are summarised here
+        if let Ok(alt) = std::env::var("JBV_ALT") {
+            let mut list = Vec::new();
+            for (name, what) in [("plain", "stable toolchain, no debug assertions, wrapping arithmetic (what a downstream release build gives)"), ("simd", "nightly toolchain, cargo feature simd, no debug assertions, wrapping arithmetic")] {
+                if let Ok(t) = std::fs::read_to_string(format!("{}/{}/evidence/{}.json", alt, name, self.id)) {
+                    if let Ok(v) = serde_json::from_str::<Value>(&t) {
+                        list.push(json!({"build": name, "configuration": what, "tier": v["tier"], "evaluations": v["coverage"]["evaluations"], "oracle_comparisons": v["coverage"]["oracle_comparisons"], "violations": v["violations"], "wall_s": v["wall_s"]}));
+                    }
+                }
+            }
+            cov.insert("alternative_builds".into(), Value::Array(list));
+        }
         let ev = json!({
             "property_id": self.id,
             "tier": self.tier.name(),
